@@ -1,6 +1,6 @@
 """C13 — see DESIGN.md section 6.C13; shared machinery in caching_common.py."""
 from .. import common
-from . import c13_extra, caching_common as CC
+from . import c13_api, c13_extra, caching_common as CC
 
 PROP = "C13"
 
@@ -15,10 +15,19 @@ def run(tier, seed):
     tasks = CC.gen_tasks(n, seed, p_fault=0.3, p_dry=0.2, p_render=0.3, norm=None, nmax=8 if tier == "quick" else 10)
     CC.campaign(res, PROP, tasks, 'histories (runs with any output / worker count / scheduler / max_errors, runs cut short by failing calls, failing store operations or a cut at the k-th operation as exception or process death, source updates, deletions, dry runs, renders) on seeded random role-assigned plans (3-8 nodes quick, 3-10 thorough) and on the exhaustive 3-node scenario family, executed on the real library and validated event by event against Caching.tla by TLC; non-trivial = a distinct (scenario, history) with at least two runs and at least one store write')
     c13_extra.run_extra(res, tier, seed)
+    c13_api.run_api(res, tier, seed)
     return res
 
 
 def replay(w):
+    if w["witness"].get("extra") == "api":
+        o = c13_api.replay_behaviour(w["witness"]["behaviour"])
+        print(o)
+        if o:
+            print(f"VIOLATION property={PROP} replay=(reproduced)")
+            return 1
+        print("not reproduced")
+        return 0
     if w["witness"].get("extra"):
         fails = c13_extra.replay_extra(w["witness"])
         print(fails[:3])
